@@ -68,12 +68,21 @@ Record Inv (p : task -> list key * phase) (s : shared) : Prop := {
   inv_val     : forall k o, value s k = Some o -> o = outc c k;
   inv_calls   : forall k, In k (calls s) <-> (lock s k <> None \/ value s k <> None);
   inv_nodup   : NoDup (calls s);
-  inv_creq    : forall k, In k (calls s) -> In k (concat (tasks c));
+  inv_caller  : forall k, In k (calls s) ->
+                  (exists h, holds p h k) \/ (exists u o, In (k, o) (results s u));
   inv_res     : forall t k o, In (k, o) (results s t) -> value s k = Some o;
   inv_pos     : forall t, map fst (results s t) ++ fst (p t) = nth t (tasks c) [];
   inv_req     : req s = length (calls s);
   inv_proc    : proc s = length (filter (fun k => is_some (value s k)) (calls s))
 }.
+
+Lemma inv_creq : forall p s, Inv p s -> forall k, In k (calls s) -> In k (concat (tasks c)).
+Proof.
+  intros p s HI k Hk. destruct (inv_caller _ _ HI k Hk) as [(h & rest & m & Hh)|(u & o & R)].
+  - apply (in_nth_concat _ h). rewrite <- (inv_pos _ _ HI h), Hh. apply in_or_app. right. now left.
+  - apply (in_nth_concat _ u). rewrite <- (inv_pos _ _ HI u). apply in_or_app. left.
+    apply in_map_iff. now exists (k, o).
+Qed.
 
 Lemma holds_ext : forall p p' h k, (forall x, p x = p' x) -> holds p h k -> holds p' h k.
 Proof. intros p p' h k E (rest & m & H). exists rest, m. now rewrite <- E. Qed.
@@ -81,6 +90,8 @@ Proof. intros p p' h k E (rest & m & H). exists rest, m. now rewrite <- E. Qed.
 Lemma Inv_ext : forall p p' s, (forall x, p x = p' x) -> Inv p s -> Inv p' s.
 Proof.
   intros p p' s E [H1 H2 H3 H4 H5 Hq H6 H7 H8 H9].
+  assert (Hc : forall k, In k (calls s) -> (exists h, holds p' h k) \/ (exists u o, In (k, o) (results s u))).
+  { intros k Hk. destruct (Hq k Hk) as [(h & Hh)|R]; [left; exists h; now apply (holds_ext p p')|now right]. }
   split; try assumption.
   - intros k h. rewrite H1. split; apply holds_ext; [assumption|]. intro x; symmetry; apply E.
   - intros t. rewrite <- E. apply H7.
@@ -119,6 +130,12 @@ Lemma step_tick : forall p s t k rest m m',
   p t = (k :: rest, Sup m) -> Inv p s -> Inv (upd p t (k :: rest, Sup m')) s.
 Proof.
   intros p s t k rest m m' Hp [H1 H2 H3 H4 H5 Hq H6 H7 H8 H9].
+  assert (Hc : forall k0, In k0 (calls s) ->
+            (exists h, holds (upd p t (k :: rest, Sup m')) h k0) \/ (exists u o, In (k0, o) (results s u))).
+  { intros k0 Hk. destruct (Hq k0 Hk) as [(h & Hh)|R]; [left|now right].
+    exists h. apply holds_upd. destruct (Nat.eq_dec h t) as [E|N]; [|right; now split].
+    left. split; [assumption|]. subst h. destruct Hh as (r & m0 & E). rewrite Hp in E.
+    inversion E; subst. now exists r, m'. }
   split; try assumption.
   - intros k' h. rewrite H1, holds_upd. split.
     + intros H. destruct (Nat.eq_dec h t) as [E|N]; [|right; now split].
@@ -136,6 +153,10 @@ Lemma step_wait : forall p s t k rest ph,
   p t = (k :: rest, ph) -> not_sup ph -> Inv p s -> Inv (upd p t (k :: rest, Wait)) s.
 Proof.
   intros p s t k rest ph Hp Hn [H1 H2 H3 H4 H5 Hq H6 H7 H8 H9].
+  assert (Hc : forall k0, In k0 (calls s) ->
+            (exists h, holds (upd p t (k :: rest, Wait)) h k0) \/ (exists u o, In (k0, o) (results s u))).
+  { intros k0 Hk. destruct (Hq k0 Hk) as [(h & Hh)|R]; [left|now right].
+    exists h. now apply (holds_upd_nosup p t (k :: rest) ph). }
   split; try assumption.
   - intros k' h. rewrite H1. symmetry. now apply (holds_upd_nosup p t (k :: rest) ph).
   - intros t'. destruct (upd_cases _ p t (k :: rest, Wait) t') as [[E1 E2]|[E1 E2]]; rewrite E2.
@@ -152,6 +173,14 @@ Lemma step_hit : forall p s t k rest ph o,
   Inv p s -> Inv (upd p t (rest, Start)) (hit t k o s).
 Proof.
   intros p s t k rest ph o Hp Hn Hv [H1 H2 H3 H4 H5 Hq H6 H7 H8 H9].
+  assert (Hc : forall k0, In k0 (calls s) ->
+            (exists h, holds (upd p t (rest, Start)) h k0) \/
+            (exists u o0, In (k0, o0) (upd (results s) t (results s t ++ [(k, o)]) u))).
+  { intros k0 Hk. destruct (Hq k0 Hk) as [(h & Hh)|(u & o0 & R)].
+    - left. exists h. now apply (holds_upd_nosup p t (k :: rest) ph).
+    - right. exists u, o0. destruct (upd_cases _ (results s) t (results s t ++ [(k, o)]) u) as [[E1 E2]|[E1 E2]]; rewrite E2.
+      + subst u. apply in_or_app. now left.
+      + assumption. }
   split; cbn [hit lock value calls req proc stats results]; try assumption.
   - intros k' h. rewrite H1. symmetry. now apply (holds_upd_nosup p t (k :: rest) ph).
   - intros t' k' o'. destruct (upd_cases _ (results s) t (results s t ++ [(k, o)]) t') as [[E1 E2]|[E1 E2]]; rewrite E2.
@@ -173,6 +202,13 @@ Lemma step_begin : forall p s t k rest ph m,
   Inv p s -> Inv (upd p t (k :: rest, Sup m)) (begin_call t k s).
 Proof.
   intros p s t k rest ph m Hp Hn Hl Hv [H1 H2 H3 H4 H5 Hq H6 H7 H8 H9].
+  assert (Hc : forall k0, In k0 (calls s ++ [k]) ->
+            (exists h, holds (upd p t (k :: rest, Sup m)) h k0) \/ (exists u o, In (k0, o) (results s u))).
+  { intros k0 Hk. apply in_app_or in Hk. destruct Hk as [Hk|[E|[]]].
+    - destruct (Hq k0 Hk) as [(h & Hh)|R]; [left|now right].
+      exists h. apply holds_upd. right. split; [|assumption].
+      intro; subst h. destruct Hh as (r & m0 & E). rewrite Hp in E. inversion E; subst. destruct Hn.
+    - subst k0. left. exists t. apply holds_upd. left. split; [reflexivity|]. now exists rest, m. }
   split; cbn [begin_call lock value calls req proc stats results]; try assumption.
   - intros k' h. rewrite holds_upd.
     destruct (upd_cases _ (lock s) k (Some t) k') as [[E1 E2]|[E1 E2]]; rewrite E2.
@@ -195,8 +231,6 @@ Proof.
       * intros H. now left.
   - apply NoDup_snoc; [assumption|].
     intros Hx. apply H4 in Hx. rewrite Hl, Hv in Hx. destruct Hx as [X|X]; now apply X.
-  - intros k' Hin. apply in_app_or in Hin. destruct Hin as [Hin|[E|[]]]; [now apply Hq|].
-    subst k'. apply (in_nth_concat _ t). rewrite <- (H7 t), Hp. apply in_or_app. right. now left.
   - intros t'. destruct (upd_cases _ p t (k :: rest, Sup m) t') as [[E1 E2]|[E1 E2]]; rewrite E2.
     + subst t'. specialize (H7 t). now rewrite Hp in H7.
     + apply H7.
@@ -211,6 +245,20 @@ Proof.
   intros p s t k rest m Hp [H1 H2 H3 H4 H5 Hq H6 H7 H8 H9].
   assert (Hl : lock s k = Some t) by (apply H1; now exists rest, m).
   assert (Hv : value s k = None) by (now apply (H2 k t)).
+  assert (Hc : forall k0, In k0 (calls s) ->
+            (exists h, holds (upd p t (rest, Start)) h k0) \/
+            (exists u o, In (k0, o) (upd (results s) t (results s t ++ [(k, outc c k)]) u))).
+  { assert (Hmono : forall u k0 o, In (k0, o) (results s u) ->
+                      In (k0, o) (upd (results s) t (results s t ++ [(k, outc c k)]) u)).
+    { intros u k0 o R. destruct (upd_cases _ (results s) t (results s t ++ [(k, outc c k)]) u) as [[E1 E2]|[E1 E2]]; rewrite E2.
+      - subst u. apply in_or_app. now left.
+      - assumption. }
+    intros k0 Hk. destruct (Hq k0 Hk) as [(h & Hh)|(u & o & R)].
+    - destruct (Nat.eq_dec h t) as [E|N].
+      + subst h. destruct Hh as (r & m0 & E). rewrite Hp in E. inversion E; subst.
+        right. exists t, (outc c k0). rewrite upd_same. apply in_or_app. right. now left.
+      + left. exists h. apply holds_upd. right. now split.
+    - right. exists u, o. now apply Hmono. }
   split; cbn [complete lock value calls req proc stats results]; try assumption.
   - intros k' h. rewrite holds_upd.
     destruct (upd_cases _ (lock s) k None k') as [[E1 E2]|[E1 E2]]; rewrite E2.
